@@ -1,4 +1,5 @@
 import RsModel.Model.Composite
+import RsModel.Lemmas.AttrTree
 /-!
 # C06 — composites preserve what their children attribute
 (the index-translation tables every composite relies on; attribution itself is tied by correspondence)
@@ -39,5 +40,35 @@ theorem c06_concat_chunk_text (st : CSt) (text : Option Text) (m : Mapping) :
     split at he
     · simp at he; subst he; rfl
     · simp at he
+
+/-! ## ConcatSource: attribution of every byte is the child's own (PARTIAL: ConcatSource only, normal mode)
+
+`attrN` resolves, for every byte of the delivered text, the chunk's original location through the tables the stream
+itself announced (`on_source` / `on_name` events): file name, embedded content, original line and column, and name.
+The hypothesis `WellDecl` is C11's "announced before used" for the child streams together with "one content per
+file name" (`cons`): a ConcatSource deduplicates sources by name and keeps the first content. -/
+
+/-- stream level: every byte contributed by child k is attributed exactly as child k attributes it on its own
+(file name, embedded content, line, column and name), and nothing else is added. -/
+theorem c06_concat (cons : Text → Option Text) (children : List SResult)
+    (h : ∀ c ∈ children, WellDecl cons emptyS emptyN c.evs ∧ evsTL c.evs = false) :
+    attrN emptyS emptyN (concatStream false children).evs = (children.map fun c => attrN emptyS emptyN c.evs).flatten :=
+  concatStream_attrN cons children h
+
+/-- … and what the ConcatSource delivers is again well declared, so the law composes through nesting -/
+theorem c06_concat_well_declared (cons : Text → Option Text) (children : List SResult)
+    (h : ∀ c ∈ children, WellDecl cons emptyS emptyN c.evs ∧ evsTL c.evs = false) :
+    WellDecl cons emptyS emptyN (concatStream false children).evs :=
+  concatStream_wellDecl cons children h
+
+/-- tree level, any nesting of ConcatSource over Raw / Original / (well-declared) SourceMapSource leaves -/
+theorem c06_concat_tree (cons : Text → Option Text) (c : Bool) (cs : SrcList) (h : SrcList.WD cons c cs) (σ : Store) :
+    (Src.concat cs).attr c σ = ((cs.streams ⟨c, false⟩ σ).1.map fun r => attrN emptyS emptyN r.evs).flatten :=
+  Src.attr_concat cons c cs h σ
+
+/-- the hypotheses are satisfiable: two OriginalSources with different names and a RawSource -/
+example : SrcList.WD (fun n => if n = [97] then some [120, 10, 121] else some [122]) true
+    (.cons (.orig [120, 10, 121] [97]) (.cons (.rawStr [59]) (.cons (.orig [122] [98]) .nil))) := by
+  simp [SrcList.WD, Src.WD]
 
 end Rs
